@@ -266,6 +266,12 @@ def findComplex (s : SchemaSet) (ns : Nat) (name : String) : Option (SchemaFile 
       | .complexType n d _ => if n == name then some (f, d) else none
       | _ => none
 
+/-- the elements a complex definition declares itself, flattened, in declaration order -/
+def ownElements (s : SchemaSet) (f : SchemaFile) (d : ComplexDef) : List RField :=
+  match d.content with
+  | some (o, ps) => flattenParticles s (uriOf s f.tns) o.optional o.repeats false ps
+  | none => []
+
 /-- base members first (in the base's order, keeping the namespace of the schema that declared them),
     then own elements, then own attributes; `fuel` bounds the derivation depth (acyclic by WF) -/
 def members (s : SchemaSet) (f : SchemaFile) (d : ComplexDef) : Nat → List RField
@@ -276,10 +282,7 @@ def members (s : SchemaSet) (f : SchemaFile) (d : ComplexDef) : Nat → List RFi
         | some (bf, bd) => members s bf bd fuel
         | none => []
       | none => []
-    let own := match d.content with
-      | some (o, ps) => flattenParticles s (uriOf s f.tns) o.optional o.repeats false ps
-      | none => []
-    baseMembers ++ own ++ d.attrs.map (attrField s)
+    baseMembers ++ ownElements s f d ++ d.attrs.map (attrField s)
 
 /-- files reachable from the start file through imports (each once) -/
 def reachable (s : SchemaSet) : List Nat :=
@@ -305,6 +308,7 @@ def structLines (s : SchemaSet) : List String :=
       f.comps.flatMap fun c =>
         let structOf (n : String) (d : ComplexDef) : List String :=
           let ms := members s f d (s.files.foldl (fun a g => a + g.comps.length) 1)
+          (if d.base.isSome then ["DERIVED\t" ++ uri ++ "\t" ++ typeName n] else []) ++
           ("STRUCT\t" ++ uri ++ "\t" ++ typeName n ++ "\trename=" ++ n) ::
           ms.zipIdx.map fun (m, k) =>
             "FIELD\t" ++ uri ++ "\t" ++ typeName n ++ "\t" ++ toString k ++ "\t" ++ m.rustName ++ "\t" ++ m.wrapper ++ "\t" ++
@@ -314,6 +318,8 @@ def structLines (s : SchemaSet) : List String :=
         | .elementAnon n d => structOf n d
         | .simpleType n base _ _ =>
           let leaf := leafOf s base
+          -- a restriction of the same-named type of the *same* namespace would alias itself: not emitted
+          if leaf == Leaf.gen uri (typeName n) || leaf == Leaf.prim (typeName n) then [] else
           let (kind, vleaf) := match leaf with
             | .prim _ => ("text", "String")
             | .gen .. => ("flatten", leaf.render)
@@ -321,8 +327,8 @@ def structLines (s : SchemaSet) : List String :=
            "SIMPLE\t" ++ uri ++ "\t" ++ typeName n ++ "\t" ++ kind ++ "\t" ++ vleaf]
         | .elementTyped n t =>
           let leaf := leafOf s t
-          let last := match leaf with | .prim p => p | .gen _ m => m
-          if last == typeName n then [] else ["ALIAS\t" ++ uri ++ "\t" ++ typeName n ++ "\t" ++ leaf.render]
+          if leaf == Leaf.gen uri (typeName n) || leaf == Leaf.prim (typeName n) then []
+          else ["ALIAS\t" ++ uri ++ "\t" ++ typeName n ++ "\t" ++ leaf.render]
 
 end Ref
 
